@@ -1,5 +1,6 @@
 // ---- C20 preamble: model of the byte sink used by the macro-generated writers ----
 pub trait BeBytes { spec fn be(&self) -> Seq<u8>; }
+pub open spec fn rev(s: Seq<u8>) -> Seq<u8> { Seq::new(s.len(), |i: int| s[s.len() - 1 - i]) }
 impl BeBytes for u8 { open spec fn be(&self) -> Seq<u8> { seq![*self] } }
 impl BeBytes for u16 { open spec fn be(&self) -> Seq<u8> { be16(*self) } }
 impl BeBytes for u32 { open spec fn be(&self) -> Seq<u8> { be32(*self) } }
@@ -9,6 +10,11 @@ impl<T: BeBytes> BeBytes for &T { open spec fn be(&self) -> Seq<u8> { (**self).b
 #[verifier::external_body]
 pub fn vw_write<T: BeBytes>(w: &mut Vec<u8>, v: T) -> (res: Result<(), VErr>)
     ensures res.is_ok(), final(w)@ == old(w)@ + v.be(),
+{ unimplemented!() }
+// same for `x.to_le_bytes()` (not used by the pinned code; present so that a byte-order change is refuted instead of being unextractable)
+#[verifier::external_body]
+pub fn vw_write_le<T: BeBytes>(w: &mut Vec<u8>, v: T) -> (res: Result<(), VErr>)
+    ensures res.is_ok(), final(w)@ == old(w)@ + rev(v.be()),
 { unimplemented!() }
 
 // What any reader sees of an attribute_info (JVMS 4.7): u2 attribute_name_index, u4 attribute_length, then exactly attribute_length bytes.
